@@ -154,6 +154,14 @@ def run_execution(sess, xid, kind, params, gname, calls, plan, thread_log, fine=
     errors = []
 
     passed = [{k: (list(v) if isinstance(v, list) else v) for k, v in c["kw"].items()} for c in calls]   # the library's own copies
+    # callers on disjoint ratings may well pass the SAME outcome list object (a constant of the program): "share" names the
+    # call whose list this call passes as well (same selector, equal values)
+    for th, c in enumerate(calls):
+        o = c.get("share")
+        if o is not None:
+            for sel in ("ranks", "scores"):
+                if sel in passed[th] and sel in passed[o] and passed[th][sel] == passed[o][sel]:
+                    passed[th][sel] = passed[o][sel]
 
     def body(th):
         c = calls[th]
